@@ -6,7 +6,7 @@ without being queued or retransmitted."
 
 `C15_valid_iff` (the address predicate), `C15_drop` (discarded frames), `C15_total` /
 `C15_total_net_fuel` (`update()` returns, open system, explicit fuel bound, modulo the contracts
-`L3Contracts` on `RF24.send` / `RF24.resend`); `C15_contracts` (the contracts are proved) and the
+`C15Contracts` on `RF24.send` / `RF24.resend`); `C15_contracts` (the contracts are proved) and the
 unconditional `C15_total_proved`, `C15_total_net_fuel_proved`, `C15_total_after_begin_proved`,
 `C15_history_proved`.  Payloads of length 0 (last section): `C15_len0_refused` (the model's radio
 never delivers one), `C15_history_len0` (totality for injected / scripted payloads of 0..32 bytes),
@@ -116,7 +116,7 @@ example : Discarded {} [1, 2, 3] ∧ Discarded {} [1, 0, 6, 0, 0, 0, 0, 0] := by
 
 /-! ## "update() on any node role returns normally for any received bytes"
 
-Open system (the other nodes do not run inside the call), on top of the contracts `L3Contracts`
+Open system (the other nodes do not run inside the call), on top of the contracts `C15Contracts`
 (`NrfProofs/C15Contract.lean`) on the two `RF24` calls with a polling loop, `send(buf,
 send_only=True)` and `resend(send_only=True)`: from an idle transmitter they return and leave the
 transmitter idle (the contracts are themselves proved: `C15_contracts`, last section of this
@@ -177,7 +177,7 @@ theorem C15_fuel_eq (Lm tt rt m : Nat) : bUP Lm tt rt m = updateFuel Lm tt rt m 
     with any fuel `f ≥ updateFuel Lm tt rt (frames still to be read)`:
     the call ends with `.ok`, and the same three facts hold again afterwards (so a later
     `update()` returns as well); no frame reappears (`M` does not grow). -/
-theorem C15_total (C : L3Contracts) (Lm tt rt : Nat) (hLm : 24 ≤ Lm) (s : NetState) (hl : NodeListens s)
+theorem C15_total (C : C15Contracts) (Lm tt rt : Nat) (hLm : 24 ≤ Lm) (s : NetState) (hl : NodeListens s)
     (hi : TI Lm tt rt s) (hd : DhcpIdle s) (f : Nat) (hf : updateFuel Lm tt rt s.M ≤ f) :
     ∃ r s', nexec (nodeUpdate f) s = (.ok r, s') ∧ NodeListens s' ∧ TI Lm tt rt s' ∧ DhcpIdle s' ∧
       s'.M ≤ s.M ∧ s'.node.kind = s.node.kind := by
@@ -191,7 +191,7 @@ theorem C15_total (C : L3Contracts) (Lm tt rt : Nat) (hLm : 24 ≤ Lm) (s : NetS
     (`NET_FUEL = 200000`) with the default timeouts (25 ms / 75 ms) and `max_message_length = 144`
     returns whenever at most 88000 frames are waiting (RX FIFO + arrival script; a harness session
     has a few dozen) -/
-theorem C15_total_net_fuel (C : L3Contracts) (s : NetState) (hl : NodeListens s) (hi : TI 144 25 75 s)
+theorem C15_total_net_fuel (C : C15Contracts) (s : NetState) (hl : NodeListens s) (hi : TI 144 25 75 s)
     (hd : DhcpIdle s) (hm : s.M ≤ 88000) :
     ∃ r s', nexec apiUpdate s = (.ok r, s') ∧ NodeListens s' ∧ TI 144 25 75 s' ∧ DhcpIdle s' ∧ s'.M ≤ s.M := by
   obtain ⟨r, s', h1, h2, h3, h4, h5, _⟩ := C15_total C 144 25 75 (by decide) s hl hi hd F (by
@@ -233,7 +233,7 @@ theorem C15_demo_ti : TI 144 25 75 demo15 where
     for every node `ds` of the tree: `_begin(val ds)` returns (C07) in a state that satisfies every
     hypothesis of `C15_total_net_fuel`; so the `update()` that follows returns, and the node listens
     again. -/
-theorem C15_total_after_begin (C : L3Contracts) (s : NetState) (ds : List Nat) (hn : IsNode ds)
+theorem C15_total_after_begin (C : C15Contracts) (s : NetState) (ds : List Nat) (hn : IsNode ds)
     (hw : s.drv.Wf) (hb : Base s.drv.d s.drv.cfg) (hc : CfgBytes s.node.cfg) (hi : TI 144 25 75 s)
     (hd : s.node.doDhcp = false) (hm : s.M ≤ 88000) :
     ∃ s0, nexec (begin (val ds)) s = (.ok (), s0) ∧ s0.M ≤ s.M ∧
@@ -272,7 +272,7 @@ def UpdEnv : Call → Prop
     between the calls — as long as fewer than 88000 frames are outstanding in total, which is what
     `NET_FUEL` covers — the whole history runs (`Runs`: every call ends with `.ok`), and the node
     listens and satisfies `TI` again at its end. -/
-theorem C15_history (C : L3Contracts) (cs : List Call) (s : NetState) (hl : NodeListens s)
+theorem C15_history (C : C15Contracts) (cs : List Call) (s : NetState) (hl : NodeListens s)
     (hi : TI 144 25 75 s) (hd : DhcpIdle s) (hcs : ∀ c ∈ cs, UpdEnv c) (hm : s.M + cs.length ≤ 88000) :
     ∃ s', Runs cs s s' ∧ NodeListens s' ∧ TI 144 25 75 s' ∧ DhcpIdle s' ∧ s'.M ≤ s.M + cs.length := by
   induction cs generalizing s with
@@ -379,7 +379,7 @@ below are the same statements with the hypothesis supplied. -/
     `update()`, a failed payload stays queued with MAX_RT latched and visible in the cached status
     byte, a three-level TX FIFO is drained by one CE pulse, and without ACK payloads nothing
     enters the RX FIFO of the transmitter. -/
-theorem C15_contracts : L3Contracts := c15contracts
+theorem C15_contracts : C15Contracts := c15contracts
 
 /-- a transmitter with a failed payload pending: PWR_UP, PRIM_RX clear, ACK payloads off, one
     `W_TX_PAYLOAD` entry in the TX FIFO, MAX_RT latched and cached, two payloads waiting in the
